@@ -205,10 +205,10 @@ def run(ctx):
     # generate_coefficients draws exactly `size` values
     f = ctx.anchor(CORE + "keys::generate_coefficients")
     if f:
-        v = FnView.get(P, f)
-        rt = v.cx.local(0)
-        takes = [s for s in subterms(rt) if is_call(s, name="take")]
-        ctx.check(len(takes) == 1 and takes[0][2][1] == ("arg", 1) and adaptor_inventory(f) == {"take": 1},
+        # exactly `size` draws, however the traversal is written (repeat_with + take, a counted map, a loop): the draw summary
+        from .. import draws as _dr
+        got = _dr.normal_form(_dr.draw_summary(P, f, {}))
+        ctx.check(got == {"Field::random": {"n(arg1)": 1}} and {k for k in adaptor_inventory(f)} <= {"take"},
                   "RED", f.key, "take(size)-only",
-                  "generate_coefficients must take exactly `size` draws (found adaptors %s)" % adaptor_inventory(f),
+                  "generate_coefficients must make exactly `size` draws (found %s, adaptors %s)" % (got, adaptor_inventory(f)),
                   f.loc)
